@@ -3,10 +3,14 @@ import FcpptModel.Model.C10
 /-!
 # C17 — model of the typed wrappers and of the comparison / hash functions
 
-Part (a): `fcppt::strong_typedef<T, Tag>` over the C integer types (no type below `int`, so no
-integer promotion), mirroring
+Part (a): `fcppt::strong_typedef<T, Tag>` over the C integer types.  For `int` and wider every operator is
+modelled; for the types narrower than `int` (`signed char`, `unsigned char`, `short`, `unsigned short`) the binary
+and unary operators are ill-formed (the result of the promoted operation is brace-initialised into `T`: a
+narrowing conversion), so only the assigning operators, `++`/`--`, comparisons and hash exist there — with
+integral promotion (`IntTy.promoted`, `IntTy.conv`).  Mirrors
 
-* `strong_typedef_impl.hpp`        : `ST` (one member `value_`), `get`
+* `strong_typedef_impl.hpp`        : `ST` (one member `value_`), `get` (const and non-const: `ST.set`), implicit copy (`ST.assign`)
+* `strong_typedef_map.hpp`, `strong_typedef_apply.hpp`, `strong_typedef_construct_cast.hpp` : `ST.map`, `ST.apply2`, `ST.constructCast`
 * `strong_typedef_arithmetic.hpp`  : `+ - *` (binary), unary `-`, `++x --x x++ x--`
 * `strong_typedef_bitwise.hpp`     : `& | ^ ~`
 * `strong_typedef_assignment.hpp`  : `+= -= *= &= |= ^=`
@@ -30,10 +34,12 @@ Part (b): the comparison functions, transcribed header by header.  `α` is the c
 * `optional/comparison.hpp`                                      : `Opt.eq Opt.ne Opt.lt`
 * `either/comparison.hpp`                                        : `Either.eq Either.ne`
 * `variant/comparison.hpp` (`std::variant ==`, `<`), `variant/compare.hpp` : `Var.eq Var.ne Var.lt Var.compare`
-* `record/comparison.hpp`                                        : `Rec.eq`
+* `record/comparison.hpp`                                        : `Rec.eq`, `Rec2.eqPermuted`
+* tuples / variants with element types of their own               : `Pair.*`, `SumV.*` (nested)
 * `math/{vector,dim}/comparison.hpp`                             : `MVec.*`
 * `math/matrix/comparison.hpp`                                   : `equalV` on the row-major storage
-* `math/box/comparison.hpp`, `math/sphere/comparison.hpp`        : `Box.*`, `Sphere.*`
+* `math/box/comparison.hpp`, `math/box/object_impl.hpp` (`pos`, `size`, the `(pos, size)` constructor),
+  `math/sphere/comparison.hpp`                                    : `Box.*`, `Sphere.*`
 * `container/grid/comparison.hpp`                                : `Grid.*`
 * `container/tree/comparison.hpp` (`std::list ==` on the children): `Tree.eq`
 * `container/raw_vector/comparison.hpp`                          : `RawVec.*`
@@ -59,6 +65,10 @@ def i32 : IntTy := ⟨true, 32⟩
 def u32 : IntTy := ⟨false, 32⟩
 def i64 : IntTy := ⟨true, 64⟩
 def u64 : IntTy := ⟨false, 64⟩
+def i8 : IntTy := ⟨true, 8⟩
+def u8 : IntTy := ⟨false, 8⟩
+def i16 : IntTy := ⟨true, 16⟩
+def u16 : IntTy := ⟨false, 16⟩
 
 def lo (t : IntTy) : Int := if t.signed then -(2 ^ (t.bits - 1) : Int) else 0
 def hi (t : IntTy) : Int := if t.signed then 2 ^ (t.bits - 1) - 1 else 2 ^ t.bits - 1
@@ -83,6 +93,27 @@ def band (t : IntTy) (a b : Int) : Int := t.ofBV (t.toBV a &&& t.toBV b)
 def bor (t : IntTy) (a b : Int) : Int := t.ofBV (t.toBV a ||| t.toBV b)
 def bxor (t : IntTy) (a b : Int) : Int := t.ofBV (t.toBV a ^^^ t.toBV b)
 def bnot (t : IntTy) (a : Int) : Int := t.ofBV (~~~ t.toBV a)
+
+/-! ### compound assignment and `++`/`--` of the C type (`a op= b` is `a = static_cast<T>(a op b)`)
+
+For a type narrower than `int` both operands are promoted to `int` (integral promotion), the operator is that
+of `int`, and the result is converted back to `T` (C++20: the unique value congruent modulo 2^bits).  For `int`
+and wider nothing is promoted and the conversion is the identity on the values of the type. -/
+
+/-- integral promotion -/
+def promoted (t : IntTy) : IntTy := if t.bits < 32 then i32 else t
+/-- conversion of an integer value to the type `t` (modulo 2^bits into the range of `t`) -/
+def conv (t : IntTy) (x : Int) : Int := if t.signed then Int.bmod x (2 ^ t.bits) else x % (2 ^ t.bits : Int)
+
+def addAssign (t : IntTy) (a b : Int) : M Int := do let r ← t.promoted.add a b; pure (t.conv r)
+def subAssign (t : IntTy) (a b : Int) : M Int := do let r ← t.promoted.sub a b; pure (t.conv r)
+def mulAssign (t : IntTy) (a b : Int) : M Int := do let r ← t.promoted.mul a b; pure (t.conv r)
+def andAssign (t : IntTy) (a b : Int) : Int := t.conv (t.promoted.band a b)
+def orAssign (t : IntTy) (a b : Int) : Int := t.conv (t.promoted.bor a b)
+def xorAssign (t : IntTy) (a b : Int) : Int := t.conv (t.promoted.bxor a b)
+/-- `++a` / `--a`: `a += 1` / `a -= 1` -/
+def inc (t : IntTy) (a : Int) : M Int := t.addAssign a 1
+def dec (t : IntTy) (a : Int) : M Int := t.subAssign a 1
 end IntTy
 
 /-- `fcppt::strong_typedef<T, Tag>`: exactly one member, `value_` -/
@@ -102,8 +133,8 @@ def bxor (t : IntTy) (l r : ST) : ST := ⟨t.bxor l.get r.get⟩
 def bnot (t : IntTy) (x : ST) : ST := ⟨t.bnot x.get⟩
 
 /-- `++x`: `++_value.get(); return _value;` → (operand afterwards, what the returned reference shows) -/
-def preInc (t : IntTy) (x : ST) : M (ST × ST) := do let v ← t.add x.get 1; pure (⟨v⟩, ⟨v⟩)
-def preDec (t : IntTy) (x : ST) : M (ST × ST) := do let v ← t.sub x.get 1; pure (⟨v⟩, ⟨v⟩)
+def preInc (t : IntTy) (x : ST) : M (ST × ST) := do let v ← t.inc x.get; pure (⟨v⟩, ⟨v⟩)
+def preDec (t : IntTy) (x : ST) : M (ST × ST) := do let v ← t.dec x.get; pure (⟨v⟩, ⟨v⟩)
 /-- `x++`: `temp{_value}; ++_value; return temp;` → (operand afterwards, returned copy) -/
 def postInc (t : IntTy) (x : ST) : M (ST × ST) := do
   let temp := x
@@ -115,12 +146,23 @@ def postDec (t : IntTy) (x : ST) : M (ST × ST) := do
   pure (x', temp)
 
 /-- `l op= r`: `_left.get() op= _right.get(); return _left;` → (left afterwards, through the returned reference) -/
-def addAssign (t : IntTy) (l r : ST) : M (ST × ST) := do let v ← t.add l.get r.get; pure (⟨v⟩, ⟨v⟩)
-def subAssign (t : IntTy) (l r : ST) : M (ST × ST) := do let v ← t.sub l.get r.get; pure (⟨v⟩, ⟨v⟩)
-def mulAssign (t : IntTy) (l r : ST) : M (ST × ST) := do let v ← t.mul l.get r.get; pure (⟨v⟩, ⟨v⟩)
-def andAssign (t : IntTy) (l r : ST) : ST × ST := (⟨t.band l.get r.get⟩, ⟨t.band l.get r.get⟩)
-def orAssign (t : IntTy) (l r : ST) : ST × ST := (⟨t.bor l.get r.get⟩, ⟨t.bor l.get r.get⟩)
-def xorAssign (t : IntTy) (l r : ST) : ST × ST := (⟨t.bxor l.get r.get⟩, ⟨t.bxor l.get r.get⟩)
+def addAssign (t : IntTy) (l r : ST) : M (ST × ST) := do let v ← t.addAssign l.get r.get; pure (⟨v⟩, ⟨v⟩)
+def subAssign (t : IntTy) (l r : ST) : M (ST × ST) := do let v ← t.subAssign l.get r.get; pure (⟨v⟩, ⟨v⟩)
+def mulAssign (t : IntTy) (l r : ST) : M (ST × ST) := do let v ← t.mulAssign l.get r.get; pure (⟨v⟩, ⟨v⟩)
+def andAssign (t : IntTy) (l r : ST) : ST × ST := (⟨t.andAssign l.get r.get⟩, ⟨t.andAssign l.get r.get⟩)
+def orAssign (t : IntTy) (l r : ST) : ST × ST := (⟨t.orAssign l.get r.get⟩, ⟨t.orAssign l.get r.get⟩)
+def xorAssign (t : IntTy) (l r : ST) : ST × ST := (⟨t.xorAssign l.get r.get⟩, ⟨t.xorAssign l.get r.get⟩)
+
+/-- the implicitly defined copy / move assignment `l = r` → (left afterwards, through the returned reference) -/
+def assign (_l r : ST) : ST × ST := (r, r)
+/-- writing through the non-const `get()`: `x.get() = v` -/
+def set (_x : ST) (v : Int) : ST := ⟨v⟩
+/-- `strong_typedef_map(x, f)`: `strong_typedef<R, Tag>(f(x.get()))` -/
+def map (f : Int → Int) (x : ST) : ST := ⟨f x.get⟩
+/-- `strong_typedef_apply(f, x, y)`: `strong_typedef<R, Tag>(f(x.get(), y.get()))` -/
+def apply2 (f : Int → Int → Int) (x y : ST) : ST := ⟨f x.get y.get⟩
+/-- `strong_typedef_construct_cast<ST, Conv>(v)`: `ST(Conv(v))` -/
+def constructCast (conv : Int → Int) (v : Int) : ST := ⟨conv v⟩
 
 def lt (l r : ST) : Bool := decide (l.get < r.get)
 def le (l r : ST) : Bool := decide (l.get ≤ r.get)
@@ -220,6 +262,44 @@ def compare (c : α → α → Bool) (l r : Var α) : Bool :=
   | some li => c li r.val
 end Var
 
+/-! ## heterogeneous products and sums: `tuple<A, B, …>`, `variant<A, B, …>`, `record<…>` with element types of their own
+
+`std::tuple ==` compares position by position from the left and stops at the first difference; a tuple of any
+arity is a nested pair `A × (B × (C × …))`.  `std::variant` holding alternative `i` of `A, B, C, …` is the nested sum
+`A ⊕ (B ⊕ (C ⊕ …))`: `inl` = the first alternative, so the nesting order is the index order. -/
+variable {γ : Type}
+namespace Pair
+def eq (eqA : α → α → Bool) (eqB : β → β → Bool) (a b : α × β) : Bool := eqA a.1 b.1 && eqB a.2 b.2
+def ne (eqA : α → α → Bool) (eqB : β → β → Bool) (a b : α × β) : Bool := !(Pair.eq eqA eqB a b)
+end Pair
+
+namespace SumV
+/-- `std::variant ==`: same index and equal values of that alternative -/
+def eq (eqA : α → α → Bool) (eqB : β → β → Bool) (a b : Sum α β) : Bool :=
+  match a, b with
+  | .inl x, .inl y => eqA x y
+  | .inr x, .inr y => eqB x y
+  | _, _ => false
+def ne (eqA : α → α → Bool) (eqB : β → β → Bool) (a b : Sum α β) : Bool := !(SumV.eq eqA eqB a b)
+/-- `std::variant <`: the smaller index first, then the values of the common alternative -/
+def lt (ltA : α → α → Bool) (ltB : β → β → Bool) (a b : Sum α β) : Bool :=
+  match a, b with
+  | .inl x, .inl y => ltA x y
+  | .inl _, .inr _ => true
+  | .inr _, .inl _ => false
+  | .inr x, .inr y => ltB x y
+/-- `variant::compare(l, r, c)`: `c` on the values when both hold the same alternative, else `false` -/
+def compare (cA : α → α → Bool) (cB : β → β → Bool) (l r : Sum α β) : Bool :=
+  match l, r with
+  | .inl x, .inl y => cA x y
+  | .inr x, .inr y => cB x y
+  | _, _ => false
+end SumV
+
+/-- `record<L0 : A, L1 : B> == record<L1 : B, L0 : A>` (the same labels in another order): label by label -/
+def Rec2.eqPermuted (eqA : α → α → Bool) (eqB : β → β → Bool) (r1 : α × β) (r2 : β × α) : Bool :=
+  eqA r1.1 r2.2 && eqB r1.2 r2.1
+
 /-! ## record: list of (label, value); `get<Label>` is a lookup -/
 abbrev Rec (α : Type) := List (Nat × α)
 
@@ -256,19 +336,26 @@ def ge (lt : α → α → Bool) (a b : Vector α n) : Bool := !(MVec.lt lt a b)
 def hash (hc : Nat → Nat → Nat) (h : α → Nat) (a : Vector α n) : Nat := rangeHash hc h a.toList
 end MVec
 
-/-! ## box (pos : vector, size : dim), sphere (origin : vector, radius) -/
+/-! ## box (stores `min_` and `max_`; `pos()` is `min_`, `size()` is `max_ - min_`), sphere (origin : vector, radius) -/
 structure Box (α : Type) (n : Nat) where
-  pos : Vector α n
-  size : Vector α n
+  min : Vector α n
+  max : Vector α n
 
 namespace Box
 variable {n : Nat}
+/-- `pos()`: `min_` -/
+def pos (b : Box α n) : Vector α n := b.min
+/-- `size()`: `to_dim(max_ - min_)`, component-wise with the `-` of the coordinate type -/
+def size (sub : α → α → α) (b : Box α n) : Vector α n := Vector.zipWith sub b.max b.min
+/-- constructor `object(vector pos, dim size)`: `min_(pos), max_(pos + size)` -/
+def ofPosSize (add : α → α → α) (p s : Vector α n) : Box α n := ⟨p, Vector.zipWith add p s⟩
 /-- `_a.pos() == _b.pos() && _a.size() == _b.size()` -/
-def eq (eq : α → α → Bool) (a b : Box α n) : Bool := MVec.eq eq a.pos b.pos && MVec.eq eq a.size b.size
-def ne (eq : α → α → Bool) (a b : Box α n) : Bool := !(Box.eq eq a b)
+def eq (sub : α → α → α) (eq : α → α → Bool) (a b : Box α n) : Bool :=
+  MVec.eq eq a.pos b.pos && MVec.eq eq (a.size sub) (b.size sub)
+def ne (sub : α → α → α) (eq : α → α → Bool) (a b : Box α n) : Bool := !(Box.eq sub eq a b)
 /-- `std::make_pair(pos, size) < std::make_pair(pos, size)` -/
-def lt (lt : α → α → Bool) (a b : Box α n) : Bool :=
-  pairLt (MVec.lt lt) (MVec.lt lt) (a.pos, a.size) (b.pos, b.size)
+def lt (sub : α → α → α) (lt : α → α → Bool) (a b : Box α n) : Bool :=
+  pairLt (MVec.lt lt) (MVec.lt lt) (a.pos, a.size sub) (b.pos, b.size sub)
 end Box
 
 structure Sphere (α : Type) (n : Nat) where
@@ -348,7 +435,42 @@ namespace Recursive
 def eq (eq : α → α → Bool) (a b : α) : Bool := eq a b
 def ne (eq : α → α → Bool) (a b : α) : Bool := !(Recursive.eq eq a b)
 end Recursive
+
+/-! ## owning wrappers expose the wrapped object: `recursive` (`recursive_impl.hpp`: a `unique_ptr` inside)
+
+`cell = none` is the state after having been moved from (a null `unique_ptr`); `get` there is a null dereference. -/
+structure RecCell (α : Type) where
+  cell : Option α
+
+namespace RecCell
+/-- `recursive(Type const &)`, `recursive(Type &&)`: `make_unique_ptr<Type>(value)` -/
+def make (v : α) : RecCell α := ⟨some v⟩
+/-- `get()`: `*impl_` -/
+def get (r : RecCell α) : M α := match r.cell with | some v => pure v | none => throw .emptyDeref
+/-- copy constructor: `make_unique_ptr<Type>(_other.get())` — a new object holding a copy -/
+def copy (o : RecCell α) : M (RecCell α) := do let v ← o.get; pure ⟨some v⟩
+/-- copy assignment: `if (this == &_other) return *this; impl_ = make_unique_ptr<Type>(_other.get());` -/
+def assign (self other : RecCell α) (sameObject : Bool) : M (RecCell α) :=
+  if sameObject then pure self else do let v ← other.get; pure ⟨some v⟩
+/-- move construction / move assignment (defaulted: that of `unique_ptr`): (target, what is left of the source) -/
+def move (o : RecCell α) : RecCell α × RecCell α := (⟨o.cell⟩, ⟨none⟩)
+/-- writing through the non-const `get()` -/
+def set (r : RecCell α) (v : α) : M (RecCell α) := match r.cell with | some _ => pure ⟨some v⟩ | none => throw .emptyDeref
+end RecCell
+
+/-! ## iterator::range (`iterator/range_comparison.hpp`): a pair of iterators -/
+namespace IterRange
+/-- `_left.begin() == _right.begin() && _left.end() == _right.end()` -/
+def eq (eqI : α → α → Bool) (a b : α × α) : Bool := eqI a.1 b.1 && eqI a.2 b.2
+def ne (eqI : α → α → Bool) (a b : α × α) : Bool := !(IterRange.eq eqI a b)
+end IterRange
 end
+
+/-! ## unit (`unit_comparison.hpp`) -/
+namespace UnitT
+def eq (_a _b : Unit) : Bool := true
+def ne (_a _b : Unit) : Bool := false
+end UnitT
 
 /-! ## reference: holds the address of the referent -/
 structure Ref where
@@ -367,6 +489,21 @@ def hash (hp : Nat → Nat) (a : Ref) : Nat := hp a.addr
 def get {α : Type} (mem : Nat → α) (a : Ref) : α := mem a.addr
 end Ref
 
+/-! ## unique_ptr (`unique_ptr_impl.hpp`): owns the object at `ptr`, or is null after a move / `release_ownership` -/
+structure UPtr where
+  ptr : Option Nat
+  deriving Repr, DecidableEq
+
+namespace UPtr
+/-- `operator*`, `operator->`, `get_pointer()` -/
+def get {α : Type} (mem : Nat → α) (u : UPtr) : M α :=
+  match u.ptr with | some p => pure (mem p) | none => throw .emptyDeref
+/-- move construction / assignment: (target, what is left of the source) -/
+def move (u : UPtr) : UPtr × UPtr := (⟨u.ptr⟩, ⟨none⟩)
+/-- `release_ownership()`: (the pointer handed out, the wrapper afterwards) -/
+def release (u : UPtr) : Option Nat × UPtr := (u.ptr, ⟨none⟩)
+end UPtr
+
 /-! ## shared_ptr: stored pointer and owner (control block) -/
 structure SPtr where
   ptr : Nat
@@ -382,6 +519,8 @@ def ne (a b : SPtr) : Bool := a.ptr != b.ptr
 def lt (a b : SPtr) : Bool := decide (a.ptr < b.ptr)
 /-- `std::hash<T *>()(_value.get_pointer())` -/
 def hash (hp : Nat → Nat) (a : SPtr) : Nat := hp a.ptr
+/-- `operator*`: the object at the stored pointer (address 0 = null) -/
+def get {α : Type} (mem : Nat → α) (a : SPtr) : M α := if a.ptr = 0 then throw .emptyDeref else pure (mem a.ptr)
 end SPtr
 
 end Fcppt.C17
